@@ -2153,6 +2153,46 @@ def rule_R42(text, applied, arg=None):
     return text
 
 
+def rule_R43(text, applied):
+    """`X.iter().filter_map(|PAT| { EXPR }).collect::<Vec<_>>()` (a let initialiser) -> the loop that is the std definition of
+    iter + filter_map + collect: EXPR is evaluated for the items in order, the `Some` payloads are pushed:
+      { let mut fmN_ = Vec::new(); let mut fiN_: usize = 0; while fiN_ < X.len() { BIND fiN_ += 1;
+        match EXPR { Some(fmvN_) => { fmN_.push(fmvN_); } None => {} } } fmN_ }
+    BIND binds the closure's pattern to references into X[fiN_]: `x` -> `let x = &X[i];`, a tuple pattern `(a, _)` ->
+    `let a = &X[i].0;` (the closure receives a reference; `_` binds nothing)."""
+    cnt = 0
+    while True:
+        m_text = mask(text)
+        m = re.search(r"((?:\w+\s*\.\s*)*\w+)\s*\.\s*iter\(\)\s*\.\s*filter_map\s*\(\s*\|\s*(\([^()|]*\)|\w+)\s*\|\s*", m_text)
+        if not m:
+            break
+        x, pat = "".join(m.group(1).split()), text[m.start(2):m.end(2)]
+        op = m_text.index("(", m_text.index("filter_map", m.end(1)))
+        cp = match_close(m_text, op)
+        body = text[m.end():cp].strip()
+        if body.startswith("{") and match_close(mask(body), 0) == len(body) - 1:
+            body = body[1:-1].strip()
+        if re.search(r"\breturn\b|;", mask(body)):
+            raise ExtractError("R43: filter_map closure outside the subset")
+        cm = re.match(r"\s*\.\s*collect(?:::<[^;]*?>)?\(\)", m_text[cp + 1:])
+        if not cm:
+            raise ExtractError("R43: filter_map(..) is not followed by collect() (outside the subset)")
+        end = cp + 1 + cm.end()
+        n = cnt
+        if pat.startswith("("):
+            parts = [p_.strip() for p_ in pat[1:-1].split(",")]
+            bind = " ".join(f"let {p_} = &{x}[fi{n}_].{k};" for k, p_ in enumerate(parts) if p_ and p_ != "_")
+        else:
+            bind = f"let {pat} = &{x}[fi{n}_];"
+        code = (f"{{ let mut fm{n}_ = Vec::new(); let mut fi{n}_: usize = 0; while fi{n}_ < {x}.len() {{ {bind} fi{n}_ += 1; "
+                f"match {' '.join(body.split())} {{ Some(fmv{n}_) => {{ fm{n}_.push(fmv{n}_); }} None => {{}} }} }} fm{n}_ }}")
+        text = text[:m.start()] + _keep_newlines(text[m.start():end], code) + text[end:]
+        cnt += 1
+    if cnt:
+        applied.append(f"R43x{cnt}")
+    return text
+
+
 def rule_R20(text, applied):
     """visitor call -> index loop: `RECV.visit_literals(A, B, |x| { BODY });` becomes
     `{ let lits_ = vclause_literals(&RECV, A, B); let mut li_: usize = 0; while li_ < lits_.len() { let x = lits_[li_];
@@ -2285,7 +2325,7 @@ RULES = {
     "R20": rule_R20, "R21": rule_R21, "R7stackrev": rule_R7stackrev, "R7pairs": rule_R7pairs, "R7indexmap": rule_R7indexmap, "R12frozen": rule_R12frozen, "R40": rule_R40, "R39": rule_R39, "R7intoenum": rule_R7intoenum, "substws": rule_substws, "R38": rule_R38, "R9enc": rule_R9enc, "R37": rule_R37, "R36": rule_R36, "R35": rule_R35, "R16oiw": rule_R16oiw, "R9blockon": rule_R9blockon, "R34": rule_R34, "R31": rule_R31, "R30": rule_R30, "R26it": rule_R26it, "R29": rule_R29, "R7own": rule_R7own, "R28": rule_R28, "R27": rule_R27, "R8all": rule_R8all, "R16od": rule_R16od, "R10site": rule_R10site,
     "R1": rule_R1, "R2": rule_R2, "R2ref": rule_R2ref, "R3": rule_R3, "R4": rule_R4, "R5": rule_R5,
     "R8max": rule_R8max, "R8cmpmax": rule_R8cmpmax, "R8resize_none": rule_R8resize_none, "R9": rule_R9, "R8position": rule_R8position, "R8rotate": rule_R8rotate, "R12refcell": rule_R12refcell,
-    "R8slice": rule_R8slice, "R7iter": rule_R7iter, "R8bitget": rule_R8bitget, "R8intonext": rule_R8intonext, "R8find": rule_R8find, "R41": rule_R41, "R42": rule_R42, "R8rposition": rule_R8rposition, "R8contains": rule_R8contains, "R12cell": rule_R12cell, "R8resize_veccap": rule_R8resize_veccap, "R8collectid": rule_R8collectid, "R8index": rule_R8index, "subst": rule_subst,
+    "R8slice": rule_R8slice, "R7iter": rule_R7iter, "R8bitget": rule_R8bitget, "R8intonext": rule_R8intonext, "R8find": rule_R8find, "R41": rule_R41, "R43": rule_R43, "R42": rule_R42, "R8rposition": rule_R8rposition, "R8contains": rule_R8contains, "R12cell": rule_R12cell, "R8resize_veccap": rule_R8resize_veccap, "R8collectid": rule_R8collectid, "R8index": rule_R8index, "subst": rule_subst,
     "R7ref": rule_R7ref, "R6": rule_R6, "R16": rule_R16, "R14q": rule_R14q, "R7stack": rule_R7stack, "R18": rule_R18, "R8frozenindex": rule_R8frozenindex, "R7range": rule_R7range, "R14err": rule_R14err, "R7array": rule_R7array, "R17": rule_R17,
     "R13": rule_R13, "R14": rule_R14, "R2set": rule_R2set, "R8first": rule_R8first, "R7": rule_R7, "R10": rule_R10, "R11": rule_R11,
 }
